@@ -39,6 +39,17 @@ def mask_box(region):
     return [int(b.ixmin), int(b.ixmax), int(b.iymin), int(b.iymax)], tuple(m.data.shape)
 
 
+def use_once(r):
+    from regions import PixCoord
+    out = [r.bounding_box]
+    for f in (lambda: r.contains(PixCoord(0.5, 1.0)), lambda: r.to_mask(mode='center'), lambda: r.area):
+        try:
+            out.append(f())
+        except (ValueError, NotImplementedError):
+            pass
+    return out
+
+
 def run(ctx):
     quick = ctx.tier == 'quick'
     rnd = random.Random(ctx.seed * 1000003 + 4)
@@ -59,7 +70,7 @@ def run(ctx):
             want = [m['box'][0] + tx, m['box'][1] + tx, m['box'][2] + ty, m['box'][3] + ty]
             try:
                 if n % 4 == 2:
-                    region = geom.build_via_assign(s, fr, lambda r: r.bounding_box)      # other parameters first, box asked once, then assigned
+                    region = geom.build_via_assign(s, fr, use_once)      # other parameters first, used once (box, mask, membership), then assigned
                 else:
                     region = geom.build(s, fr)
                 got = real_box(region)
